@@ -127,6 +127,10 @@ impl Property for C18 {
         }
     }
 
+    fn shrink_iters(&self) -> u32 {
+        400
+    }
+
     fn tape_len(&self) -> usize {
         1500
     }
